@@ -224,6 +224,94 @@ pub fn slice_paths<const N: usize>() {
     std::mem::forget(world);
 }
 
+/// One structural step (destroy of an arbitrary live entity, or a create) from an arbitrary Inv
+/// state, then a full pass: exactly the entities that should be alive are presented, each once,
+/// with the handle AND the components they had before the step (expectation built from the
+/// pre-state model, not from the post-state).
+pub fn iter_after_step<const N: usize>(op: u8, path: u8) {
+    let m: Model<N> = Model::any_inv();
+    assume_no_overflow(&m);
+    let mut world = load::<Tri, N>(&m);
+    let mut gone = usize::MAX;
+    let mut added: Option<((u32, u32), u8)> = None;
+    if op == 0 {
+        let d = sym::any_usize();
+        sym::assume(d < m.len);
+        let (k0, g0) = m.handle_raw(Tri::ID, d);
+        assert!(world.destroy(EntityAny::from_raw((k0, g0)).ok().unwrap()).is_some());
+        gone = d;
+    } else {
+        sym::assume(m.len < N);
+        let v = sym::any_u8();
+        let e = world.create::<ArchTri>((P(v), Pad(v ^ 0x5a, 7), Zs));
+        added = Some((e.into_any().raw(), v));
+    }
+    let mut seen = [0u8; N];
+    let mut seen_added = 0u8;
+    let mut calls = 0usize;
+    let mut visit = |raw: (u32, u32), p: u8| {
+        calls += 1;
+        if let Some((ar, av)) = added {
+            if raw == ar {
+                assert!(p == av, "iteration paired the new entity with other components");
+                seen_added += 1;
+                return;
+            }
+        }
+        // must be a pre-state entity other than the destroyed one, with its own value
+        let mut found = false;
+        let mut i = 0;
+        while i < N {
+            if i < m.len && i != gone && raw == m.handle_raw(Tri::ID, i) {
+                assert!(p == m.val[i], "iteration paired a handle with another entity's components after a structural change");
+                seen[i] += 1;
+                found = true;
+            }
+            i += 1;
+        }
+        assert!(found, "iteration presented a handle that is not a live entity after a structural change");
+    };
+    match path {
+        0 => ecs_iter!(world, |e: &EntityAny, p: &P| visit(e.raw(), p.0)),
+        1 => ecs_iter_borrow!(world, |e: &Entity<ArchTri>, p: &P| visit(e.into_any().raw(), p.0)),
+        2 => {
+            for (e, p, _pad, _z) in world.arch_tri.iter() {
+                visit(e.into_any().raw(), p.0);
+            }
+        }
+        _ => {
+            let n = world.arch_tri.len();
+            let mut i = 0;
+            while i < N {
+                if i < n {
+                    let raw = world.arch_tri.entities()[i].into_any().raw();
+                    let p = world.arch_tri.get_slice::<P>()[i].0;
+                    visit(raw, p);
+                }
+                i += 1;
+            }
+        }
+    }
+    let expect = if op == 0 { m.len - 1 } else { m.len + 1 };
+    assert!(calls == expect && world.arch_tri.len() == expect, "number of items differs from the number of live entities after a structural change");
+    let mut i = 0;
+    while i < N {
+        assert!(seen[i] == if i < m.len && i != gone { 1 } else { 0 }, "a live entity was not presented exactly once after a structural change");
+        i += 1;
+    }
+    assert!(seen_added == if added.is_some() { 1 } else { 0 }, "the new entity was not presented exactly once");
+    cover!(op != 0 || (gone + 1 < m.len && m.ent_slot[gone] as usize != gone), "destroyed a non-last entity whose slot position differs from its dense index");
+    cover!(op != 0 || gone + 1 == m.len, "destroyed the last dense entity");
+    std::mem::forget(world);
+}
+
+harness! { fn c06_after_destroy_iter_3() unwind(5) { iter_after_step::<3>(0, 0) } }
+harness! { fn c06_after_destroy_iter_borrow_3() unwind(5) { iter_after_step::<3>(0, 1) } }
+harness! { fn c06_after_destroy_arch_iter_3() unwind(6) { iter_after_step::<3>(0, 2) } }
+harness! { fn c06_after_destroy_slices_4() unwind(6) { iter_after_step::<4>(0, 3) } }
+harness! { fn c06_after_create_iter_3() unwind(5) { iter_after_step::<3>(1, 0) } }
+harness! { fn c06_after_create_slices_3() unwind(5) { iter_after_step::<3>(1, 3) } }
+
 harness! { fn c06_iter_shared_2_2() unwind(4) { iter_shared::<2, 2>(false) } }
 harness! { fn c06_iter_borrow_shared_2_2() unwind(4) { iter_shared::<2, 2>(true) } }
 harness! { fn c06_iter_shared_3_2() unwind(5) { iter_shared::<3, 2>(false) } }
